@@ -3,221 +3,7 @@ from vx import core
 from vx.core import Unit
 from vx.props import common
 
-B = 'bound.rs'
-ENC2 = 'forall|x: real, y: real| contains(self, x) && contains(rhs, y) ==> contains(r, x %s y)'
-
-
-def spec_impl(T, m, lhs, rhs, req, out='Bound'):
-    return ('impl %sSpecImpl<%s> for %s { open spec fn obeys_%s_spec() -> bool { false } '
-            'open spec fn %s_req(self, rhs: %s) -> bool { %s } open spec fn %s_spec(self, rhs: %s) -> %s { arbitrary() } }\n'
-            % (T, rhs, lhs, m, m, rhs, req, m, rhs, out))
-
-
-def assign_impl(T, m, lhs, rhs, req):
-    return ('impl %sAssignSpecImpl<%s> for %s { open spec fn obeys_%s_assign_spec() -> bool { false } '
-            'open spec fn %s_assign_req(&self, rhs: %s) -> bool { %s } open spec fn %s_assign_spec(&self, rhs: %s) -> &%s { arbitrary() } }\n'
-            % (T, rhs, lhs, m, m, rhs, req, m, rhs, lhs))
-
-
-def bound_units(asm):
-    """all functions of bound.rs under contract; returns nothing, adds to asm"""
-    U = asm.unit
-    U(Unit('BoundError::check', B, 'check', impl=r'impl BoundError \{', sig='fn check(lower: f64, upper: f64) -> Result<(), BoundError>',
-           wrap=('impl BoundError {', '}'), anyhow=False,
-           header='''pub fn check(lower: F64, upper: F64) -> (r: Result<(), BoundError>)
-        ensures r is Ok <==> inv(lower@, upper@),'''))
-    U(Unit('Bound::new', B, 'new', impl=r'impl Bound \{', sig='pub fn new(lower: f64, upper: f64) -> Result<Self, BoundError>',
-           wrap=('impl Bound {', '}'), anyhow=False,
-           header='''pub fn new(lower: F64, upper: F64) -> (r: Result<Self, BoundError>)
-        ensures r is Ok <==> inv(lower@, upper@),
-                r is Ok ==> r->Ok_0.lower == lower && r->Ok_0.upper == upper,'''))
-    U(Unit('TryFrom<f64> for Bound', B, 'try_from', impl=r'impl TryFrom<f64> for Bound \{', anyhow=False,
-           sig='fn try_from(value: f64) -> Result<Self, Self::Error>',
-           pre='impl vstd::std_specs::convert::TryFromSpecImpl<F64> for Bound { open spec fn obeys_try_from_spec() -> bool { false } open spec fn try_from_spec(v: F64) -> Result<Self, BoundError> { arbitrary() } }\n',
-           wrap=('impl TryFrom<F64> for Bound { type Error = BoundError;', '}'),
-           header='''fn try_from(value: F64) -> (r: Result<Self, Self::Error>)
-        ensures r is Ok <==> value@ is Fin,
-                r is Ok ==> r->Ok_0.lower == value && r->Ok_0.upper == value,'''))
-    U(Unit('Default for Bound', B, 'default', impl=r'impl Default for Bound \{', sig='fn default() -> Self', anyhow=False,
-           wrap=('impl Default for Bound {', '}'),
-           header='''fn default() -> (r: Self)
-        ensures r.wf(), r.lower@ == XR::NegInf, r.upper@ == XR::PosInf,'''))
-    U(Unit('Zero::zero for Bound', B, 'zero', impl=r'impl Zero for Bound \{', sig='fn zero() -> Self', anyhow=False,
-           wrap=('impl Zero for Bound {', ''),
-           header='''fn zero() -> (r: Self)
-        ensures r.wf(), r.lower@ == XR::Fin(0real), r.upper@ == XR::Fin(0real),'''))
-    U(Unit('Zero::is_zero for Bound', B, 'is_zero', impl=r'impl Zero for Bound \{', sig='fn is_zero(&self) -> bool', anyhow=False,
-           wrap=('', '}'),
-           header='''fn is_zero(&self) -> (r: bool)
-        ensures r == (self.lower@ == XR::Fin(0real) && self.upper@ == XR::Fin(0real)),'''))
-    U(Unit('Add for Bound', B, 'add', impl=r'impl Add for Bound \{', sig='fn add(self, rhs: Self) -> Self::Output', anyhow=False,
-           pre=spec_impl('Add', 'add', 'Bound', 'Bound', 'self.wf() && rhs.wf()'),
-           wrap=('impl core::ops::Add for Bound { type Output = Bound;', '}'),
-           header='''fn add(self, rhs: Self) -> (r: Self::Output)
-        ensures r.wf(),
-            %s,
-            r.lower@ == xr_add(self.lower@, rhs.lower@), r.upper@ == xr_add(self.upper@, rhs.upper@),''' % (ENC2 % '+')))
-    U(Unit('Add<f64> for Bound', B, 'add', impl=r'impl Add<f64> for Bound \{', sig='fn add(self, rhs: f64) -> Self::Output', anyhow=False,
-           pre=spec_impl('Add', 'add', 'Bound', 'F64', 'self.wf() && rhs@ is Fin'),
-           wrap=('impl core::ops::Add<F64> for Bound { type Output = Bound;', '}'),
-           header='''fn add(self, rhs: F64) -> (r: Self::Output)
-        ensures r.wf(),
-            forall|x: real| contains(self, x) ==> contains(r, x + rhs@->Fin_0),'''))
-    # macro instance impl_add_inverse!(f64, Bound) -> impl Add<Bound> for f64 { rhs + self }
-    for args, ln in core.macro_invocations(B, 'impl_add_inverse'):
-        if [a for a in args] != ['f64', 'Bound']:
-            raise core.LostAnchor('unexpected impl_add_inverse! instance in bound.rs: %s' % args)
-        t = core.expand_macro('macros.rs', 'impl_add_inverse', args)
-        U(Unit('impl_add_inverse!(f64, Bound)', B, 'add', text=(t, ln), anyhow=False,
-               pre=spec_impl('Add', 'add', 'F64', 'Bound', 'rhs.wf() && self@ is Fin'),
-               wrap=('impl core::ops::Add<Bound> for F64 { type Output = Bound;', '}'),
-               header='''fn add(self, rhs: Bound) -> (r: Self::Output)
-        ensures r.wf(),
-            forall|x: real| contains(rhs, x) ==> contains(r, self@->Fin_0 + x),'''))
-    U(Unit('AddAssign for Bound', B, 'add_assign', impl=r'impl AddAssign for Bound \{', sig='fn add_assign(&mut self, rhs: Self)', anyhow=False,
-           pre=assign_impl('Add', 'add', 'Bound', 'Bound', 'self.wf() && rhs.wf()'),
-           wrap=('impl core::ops::AddAssign for Bound {', '}'),
-           header='''fn add_assign(&mut self, rhs: Self)
-        ensures final(self).wf(),
-            forall|x: real, y: real| contains(*old(self), x) && contains(rhs, y) ==> contains(*final(self), x + y),'''))
-    U(Unit('AddAssign<f64> for Bound', B, 'add_assign', impl=r'impl AddAssign<f64> for Bound \{', sig='fn add_assign(&mut self, rhs: f64)', anyhow=False,
-           pre=assign_impl('Add', 'add', 'Bound', 'F64', 'self.wf() && rhs@ is Fin'),
-           wrap=('impl core::ops::AddAssign<F64> for Bound {', '}'),
-           header='''fn add_assign(&mut self, rhs: F64)
-        ensures final(self).wf(),
-            forall|x: real| contains(*old(self), x) ==> contains(*final(self), x + rhs@->Fin_0),'''))
-    U(Unit('Mul for Bound', B, 'mul', impl=r'impl Mul for Bound \{', sig='fn mul(self, rhs: Self) -> Self::Output', anyhow=False,
-           pre=spec_impl('Mul', 'mul', 'Bound', 'Bound', 'self.wf() && rhs.wf()'),
-           wrap=('impl core::ops::Mul for Bound { type Output = Bound;', '}'),
-           header='''fn mul(self, rhs: Self) -> (r: Self::Output)
-        ensures r.wf(),
-            %s,''' % (ENC2 % '*'),
-           proofs=[(('before', r'return Bound::zero\(\);'), '''proof {
-                assert forall|x: real, y: real| contains(self, x) && contains(rhs, y) implies x * y == 0real by {
-                    assert(x == 0real || y == 0real);
-                    assert(x * y == 0real) by(nonlinear_arith) requires x == 0real || y == 0real;
-                }
-            }
-            '''),
-                   (('before', r'Bound::new\(a\.min'), 'proof { lemma_mul_corners(self, rhs, a@, b@, c@, d@); }\n        ')]))
-    U(Unit('Mul<f64> for Bound', B, 'mul', impl=r'impl Mul<f64> for Bound \{', sig='fn mul(self, rhs: f64) -> Self::Output', anyhow=False,
-           pre=spec_impl('Mul', 'mul', 'Bound', 'F64', 'self.wf() && rhs@ is Fin && (rhs@ != XR::Fin(0real) || fin_wf(self))'),
-           wrap=('impl core::ops::Mul<F64> for Bound { type Output = Bound;', '}'),
-           header='''fn mul(self, rhs: F64) -> (r: Self::Output)
-        ensures r.wf(),
-            forall|x: real| contains(self, x) ==> contains(r, x * rhs@->Fin_0),''',
-           proofs=[('start', ' proof { lemma_scale(self, rhs@->Fin_0); }\n')]))
-    for args, ln in core.macro_invocations(B, 'impl_mul_inverse'):
-        if args != ['f64', 'Bound']:
-            raise core.LostAnchor('unexpected impl_mul_inverse! instance in bound.rs: %s' % args)
-        t = core.expand_macro('macros.rs', 'impl_mul_inverse', args)
-        U(Unit('impl_mul_inverse!(f64, Bound)', B, 'mul', text=(t, ln), anyhow=False,
-               pre=spec_impl('Mul', 'mul', 'F64', 'Bound', 'rhs.wf() && self@ is Fin && (self@ != XR::Fin(0real) || fin_wf(rhs))'),
-               wrap=('impl core::ops::Mul<Bound> for F64 { type Output = Bound;', '}'),
-               header='''fn mul(self, rhs: Bound) -> (r: Self::Output)
-        ensures r.wf(),
-            forall|x: real| contains(rhs, x) ==> contains(r, x * self@->Fin_0),'''))
-    U(Unit('MulAssign for Bound', B, 'mul_assign', impl=r'impl MulAssign for Bound \{', sig='fn mul_assign(&mut self, rhs: Self)', anyhow=False,
-           pre=assign_impl('Mul', 'mul', 'Bound', 'Bound', 'self.wf() && rhs.wf()'),
-           wrap=('impl core::ops::MulAssign for Bound {', '}'),
-           header='''fn mul_assign(&mut self, rhs: Self)
-        ensures final(self).wf(),
-            forall|x: real, y: real| contains(*old(self), x) && contains(rhs, y) ==> contains(*final(self), x * y),'''))
-    U(Unit('MulAssign<f64> for Bound', B, 'mul_assign', impl=r'impl MulAssign<f64> for Bound \{', sig='fn mul_assign(&mut self, rhs: f64)', anyhow=False,
-           pre=assign_impl('Mul', 'mul', 'Bound', 'F64', 'self.wf() && rhs@ is Fin && (rhs@ != XR::Fin(0real) || fin_wf(*self))'),
-           wrap=('impl core::ops::MulAssign<F64> for Bound {', '}'),
-           header='''fn mul_assign(&mut self, rhs: F64)
-        ensures final(self).wf(),
-            forall|x: real| contains(*old(self), x) ==> contains(*final(self), x * rhs@->Fin_0),'''))
-    U(Unit('PartialEq<f64> for Bound', B, 'eq', impl=r'impl PartialEq<f64> for Bound \{', sig='fn eq(&self, other: &f64) -> bool', anyhow=False,
-           pre='impl vstd::std_specs::cmp::PartialEqSpecImpl<F64> for Bound { open spec fn obeys_eq_spec() -> bool { false } open spec fn eq_spec(&self, other: &F64) -> bool { arbitrary() } }\n',
-           wrap=('impl PartialEq<F64> for Bound {', '}'),
-           header='''fn eq(&self, other: &F64) -> (r: bool)
-        ensures r == (!(other@ is NaN) && self.lower@ == other@ && self.upper@ == other@),'''))
-    I = r'impl Bound \{'
-    W = ('impl Bound {', '}')
-    U(Unit('Bound::positive', B, 'positive', impl=I, sig='pub fn positive() -> Self', wrap=W, anyhow=False,
-           header='''pub fn positive() -> (r: Self)
-        ensures r.wf(), r.lower@ == XR::Fin(0real), r.upper@ == XR::PosInf,'''))
-    U(Unit('Bound::negative', B, 'negative', impl=I, sig='pub fn negative() -> Self', wrap=W, anyhow=False,
-           header='''pub fn negative() -> (r: Self)
-        ensures r.wf(), r.lower@ == XR::NegInf, r.upper@ == XR::Fin(0real),'''))
-    U(Unit('Bound::lower', B, 'lower', impl=I, sig='pub fn lower(&self) -> f64', wrap=W, anyhow=False,
-           header='''pub fn lower(&self) -> (r: F64)
-        ensures r == self.lower,'''))
-    U(Unit('Bound::upper', B, 'upper', impl=I, sig='pub fn upper(&self) -> f64', wrap=W, anyhow=False,
-           header='''pub fn upper(&self) -> (r: F64)
-        ensures r == self.upper,'''))
-    U(Unit('Bound::width', B, 'width', impl=I, sig='pub fn width(&self) -> f64', wrap=W, anyhow=False,
-           header='''pub fn width(&self) -> (r: F64)
-        ensures r@ == xr_sub(self.upper@, self.lower@),'''))
-    U(Unit('Bound::set_lower', B, 'set_lower', impl=I, sig='pub fn set_lower(&mut self, lower: f64) -> Result<(), BoundError>', wrap=W, anyhow=False,
-           header='''pub fn set_lower(&mut self, lower: F64) -> (r: Result<(), BoundError>)
-        ensures r is Ok <==> inv(lower@, old(self).upper@),
-            r is Ok ==> final(self).lower == lower && final(self).upper == old(self).upper,
-            r is Err ==> *final(self) == *old(self),'''))
-    U(Unit('Bound::set_upper', B, 'set_upper', impl=I, sig='pub fn set_upper(&mut self, upper: f64) -> Result<(), BoundError>', wrap=W, anyhow=False,
-           header='''pub fn set_upper(&mut self, upper: F64) -> (r: Result<(), BoundError>)
-        ensures r is Ok <==> inv(old(self).lower@, upper@),
-            r is Ok ==> final(self).upper == upper && final(self).lower == old(self).lower,
-            r is Err ==> *final(self) == *old(self),'''))
-    U(Unit('Bound::as_integer_bound', B, 'as_integer_bound', impl=I, sig='pub fn as_integer_bound(&self) -> Self', wrap=W, anyhow=False,
-           header='''pub fn as_integer_bound(&self) -> (r: Self)
-        requires self.wf(), exists|k: real| contains_int(*self, k)
-        ensures r.wf(),
-            forall|k: real| contains_int(*self, k) ==> contains_int(r, k),
-            r.lower@ is Fin ==> is_int(r.lower@->Fin_0),
-            r.upper@ is Fin ==> is_int(r.upper@->Fin_0),
-            // the rounding never widens by a whole unit
-            forall|x: real| contains(r, x) ==> contains_tol(*self, x, 1real / 1000000real),''',
-           proofs=[('start', ' proof { lemma_int_round(*self); if self.lower@ is Fin { ax_ceil(self.lower@->Fin_0 - 1real / 1000000real); } if self.upper@ is Fin { ax_floor(self.upper@->Fin_0 + 1real / 1000000real); } }\n')]))
-    U(Unit('Bound::is_finite', B, 'is_finite', impl=I, sig='pub fn is_finite(&self) -> bool', wrap=W, anyhow=False,
-           header='''pub fn is_finite(&self) -> (r: bool)
-        ensures r == (self.lower@ is Fin && self.upper@ is Fin),'''))
-    U(Unit('Bound::intersection', B, 'intersection', impl=I, sig='pub fn intersection(&self, other: &Self) -> Option<Self>', wrap=W, anyhow=False,
-           header='''pub fn intersection(&self, other: &Self) -> (r: Option<Self>)
-        requires self.wf(), other.wf()
-        ensures r is Some <==> exists|x: XR| !(x is NaN) && xr_le(self.lower@, x) && xr_le(x, self.upper@) && xr_le(other.lower@, x) && xr_le(x, other.upper@) && inv(xr_max(self.lower@, other.lower@), xr_min(self.upper@, other.upper@)),
-            r is Some ==> r->Some_0.wf() && forall|x: real| contains(r->Some_0, x) <==> (contains(*self, x) && contains(*other, x)),
-            r is None ==> forall|x: real| !(contains(*self, x) && contains(*other, x)),''',
-           proofs=[('start', ''' proof {
-            let lo = xr_max(self.lower@, other.lower@); let hi = xr_min(self.upper@, other.upper@);
-            if inv(lo, hi) { assert(xr_le(self.lower@, lo) && xr_le(lo, self.upper@) && xr_le(other.lower@, lo) && xr_le(lo, other.upper@)); }
-        }\n''')]))
-    U(Unit('Bound::pow', B, 'pow', impl=I, sig='pub fn pow(&self, exp: u8) -> Self', wrap=W, anyhow=False,
-           header='''pub fn pow(&self, exp: u8) -> (r: Self)
-        requires self.wf()
-        ensures r.wf(), forall|x: real| contains(*self, x) ==> contains(r, rpow(x, exp as nat)),''',
-           proofs=[('start', ''' proof {
-            assert forall|x: real| contains(*self, x) implies pow_point_ok(*self, exp as nat, x) by { lemma_pow_point(*self, exp as nat, x); }
-            lemma_pick(self.lower@, self.upper@);
-            lemma_pow_point(*self, exp as nat, pick(self.lower@, self.upper@));
-        }\n''')]))
-    U(Unit('Bound::contains', B, 'contains', impl=I, sig='pub fn contains(&self, value: f64, atol: f64) -> bool', wrap=W, anyhow=False,
-           header='''pub fn contains(&self, value: F64, atol: F64) -> (r: bool)
-        ensures r == (xr_le(xr_sub(self.lower@, atol@), value@) && xr_le(value@, xr_add(self.upper@, atol@))),'''))
-    U(Unit('Bound::nearest_to_zero', B, 'nearest_to_zero', impl=I, sig='pub fn nearest_to_zero(&self) -> f64', wrap=W, anyhow=False,
-           header='''pub fn nearest_to_zero(&self) -> (r: F64)
-        requires self.wf()
-        ensures r@ is Fin, contains(*self, r@->Fin_0),
-            forall|x: real| contains(*self, x) ==> rabs(r@->Fin_0) <= rabs(x),'''))
-
-
-def bound_types(asm):
-    t = core.get_type(B, 'enum', 'BoundError', asm.rules)
-    asm.extracted(t['text'], 'enum BoundError')
-    t = core.get_type(B, 'struct', 'Bound', asm.rules)
-    if 'PartialEq' not in t['derives'] or 'Copy' not in t['derives']:
-        raise core.LostAnchor('derive list of Bound changed: %s' % t['derives'])
-    asm.extracted(t['text'].replace('PartialEq', '').replace(', ,', ',').replace(', )', ')'), 'struct Bound')
-    # T4: derived PartialEq is field-wise `==` (on f64: IEEE equality)
-    asm.raw('''impl PartialEq for Bound {
-    #[verifier::external_body]
-    fn eq(&self, other: &Bound) -> (r: bool)
-        ensures r == (self.lower@ == other.lower@ && !(self.lower@ is NaN) && self.upper@ == other.upper@ && !(self.upper@ is NaN))
-    { self.lower == other.lower && self.upper == other.upper }
-}
-''', 'derived PartialEq for Bound (T4)')
+from vx.units import bound
 
 
 def build(asm, tier):
@@ -226,13 +12,14 @@ def build(asm, tier):
     asm.file('prelude/f64_model.rs')
     asm.file('prelude/anyhow_model.rs')
     asm.raw(common.ZERO_TRAIT)
-    bound_types(asm)
+    bound.types(asm)
     asm.file('spec/bound_spec.rs')
     asm.raw('''pub open spec fn contains_tol(b: Bound, x: real, a: real) -> bool {
     xr_le(xr_sub(b.lower@, XR::Fin(a)), XR::Fin(x)) && xr_le(XR::Fin(x), xr_add(b.upper@, XR::Fin(a)))
 }
 ''')
-    bound_units(asm)
+    for u in bound.units():
+        asm.unit(u)
     asm.raw('} // mod lib\n')
     asm.guard(common.guard_fn('c16_axioms', 'ax_floor(0real); ax_ceil(0real); ax_floor(1real / 2real); ax_ceil(1real / 2real);', uses='use super::lib::*;'), 'vacuity: prelude axioms')
     asm.guard('''pub mod guard_req { use vstd::prelude::*; use super::lib::*;
